@@ -43,6 +43,8 @@ def _child(req, wfd):
         res = out.to_json()
         res["log_digest"] = chaos.log_digest()
         res["status"] = "violation" if out.violations else "ok"
+        ru = resource.getrusage(resource.RUSAGE_SELF)
+        res["cpu_s"] = round(ru.ru_utime + ru.ru_stime, 3)
         if out.violations or req.get("want_scenario"):
             res["scenario"] = sc
     except BaseException as e:  # harness problem (incl. reference divergence)
